@@ -68,6 +68,7 @@ type FuncContract struct {
 	Line         int
 	Trusted      string // reason why extern
 	NoPanic      bool
+	MayPanic     bool // the callee may panic for reasons outside its panics-when clauses (runs caller-supplied code)
 	NoAlloc      bool
 	NoAllocProps []string
 	Ghosts       []*Clause   // ghost statements anchored in the body
@@ -118,7 +119,7 @@ type EffectDecl struct {
 	File   string
 }
 
-var keywordRe = regexp.MustCompile(`^(ghost-set|modifies-since|params|implements|audit|nonglobal|type|exec|replay-input|replay-setup|pred|fun|axiom|func|extern|requires|ensures|modifies|loop|behavior|props|partial|pure|inline|ghost|assert-at|assume-at|effects|trusted|nopanic|noalloc|panics-when|ensures-on-panic|package|const|lemma)\b`)
+var keywordRe = regexp.MustCompile(`^(ghost-set|modifies-since|params|implements|audit|nonglobal|type|exec|replay-input|replay-setup|pred|fun|axiom|func|extern|requires|ensures-on-panic|ensures|modifies|loop|behavior|props|partial|pure|inline|ghost|assert-at|assume-at|effects|trusted|nopanic|may-panic|noalloc|panics-when|package|const|lemma)\b`)
 
 type rawLine struct {
 	text string
@@ -321,6 +322,8 @@ func (cs *Contracts) loadFile(path string) error {
 			cur.Inline = true
 		case "nopanic":
 			cur.NoPanic = true
+		case "may-panic":
+			cur.MayPanic = true
 		case "noalloc":
 			// noalloc [@tags]: the function allocates nothing (callers keep nextref; checked at every return)
 			if cur == nil {
